@@ -153,6 +153,24 @@ def flaws_for(spec):
         yield "edge-unknown-value", f"{e0[0]}->{e0[1]}", s
 
 
+def wrapper_flaws(spec):
+    """The valid program used as a nested-graph node whose WRAPPER carries the mistake (with_outputs / with_name)."""
+    outs = [e for ns in spec["nodes"] for e in ref.data_output_names(ns)]
+    inner = copy.deepcopy(spec)
+    inner["name"] = "innerg"
+
+    def outer(**kw):
+        return {"name": "outer", "nodes": [{"k": "sub", "name": "innerg", "prog": copy.deepcopy(inner), **kw}], "bind": {}}
+
+    if outs:
+        yield "fine-wrapper-rename", "with_outputs to a fresh identifier", outer(rename_out=[{outs[0]: "renamed_ok"}]), True
+        for bad in ("bad-name", "for", "a.b"):
+            yield "illegal-output-name", f"nested-graph node output {outs[0]} -> {bad!r} via with_outputs", outer(rename_out=[{outs[0]: bad}]), False
+    yield "fine-wrapper-rename", "with_name to a hyphenated name", outer(rename_name="inner-g2"), True
+    for bad in ("a.b", "a/b"):
+        yield "illegal-node-name", f"nested-graph node renamed to {bad!r} via with_name", outer(rename_name=bad), False
+
+
 def must_accept_variants(spec):
     """Duplicates that are plainly fine: ordered by an emit/wait_for chain, or the two branches of one if/else."""
     nodes = spec["nodes"]
@@ -228,6 +246,18 @@ def check_base(ctx, spec, label, i):
             ctx.violation("C19:flaw-accepted:unordered-among-three", f"{label}: {name}: three producers of one name, first and last neither ordered nor exclusive, accepted", case)
         if not ok and st == "other-error":
             ctx.violation("C19:flaw-wrong-error:unordered-among-three", f"{label}: {name}: raised {e!r}", case)
+    if not spec.get("edges"):
+        for cls, pos, variant, ok in wrapper_flaws(spec):
+            st, e = try_build(variant)
+            ctx.obs["flaws_injected" if not ok else "must_accept_checked"] += 1
+            ctx.obs["flaw_wrapper"] += 0 if ok else 1
+            case = {"flawed": variant, "flaw": cls, "position": pos, "program": label}
+            if ok and st != "accepted":
+                ctx.violation("C19:valid-graph-rejected:wrapper", f"{label}: {pos}: rejected: {e!r}", case)
+            elif not ok and st == "accepted":
+                ctx.violation("C19:flaw-accepted:wrapper:" + cls, f"{label}: {pos} was accepted by the constructor", case)
+            elif not ok and st == "other-error":
+                ctx.violation("C19:flaw-wrong-error:wrapper:" + cls + ":" + type(e).__name__, f"{label}: {pos} raised {type(e).__name__}: {str(e)[:160]} instead of GraphConfigError", case)
     # the same flaws one level down: the flawed graph is the inner graph of a nested node
     inner_flaws = list(flaws_for(spec))
     ctx.rng.shuffle(inner_flaws)
@@ -369,14 +399,30 @@ def check_strict_graphs(ctx, U):
     sample = pairs if ctx.tier == "thorough" and ctx.shard == (0, 1) else rng.sample(pairs, min(len(pairs), 260 if ctx.tier == "quick" else 1500))
     for a, b in sample:
         exp = R(a, b)
-        for nested in (False, True):
+        for nested in (False, True, "renamed-nested-output", "non-first-producer"):
             rt.reset_program()
+            vname = "val2" if nested == "renamed-nested-output" else "val"
             prod = rt.make_function("prod", "t/prod", [{"n": "seed", "ann": int}], ret_ann=a)
-            cons = rt.make_function("cons", "t/cons", [{"n": "val", "ann": b}], ret_ann=int)
+            cons = rt.make_function("cons", "t/cons", [{"n": vname, "ann": b}], ret_ann=int)
             p = FunctionNode(prod, name="prod", output_name="val")
             c = FunctionNode(cons, name="cons", output_name="out")
             try:
-                if nested:
+                if nested == "renamed-nested-output":
+                    # the producer sits in a nested graph whose output is renamed by the wrapper
+                    inner = Graph([p], name="inner_t", strict_types=True)
+                    Graph([inner.as_node().with_outputs(val="val2"), c], strict_types=True)
+                elif nested == "non-first-producer":
+                    # two exclusive branches produce the value; the one under test is listed second,
+                    # the first one has exactly the consumer's type
+                    from hypergraph import ifelse
+
+                    @ifelse(when_true="prod0", when_false="prod")
+                    def pick(flag: bool) -> bool:
+                        return flag
+
+                    p0 = FunctionNode(rt.make_function("prod0", "t/prod0", [{"n": "seed", "ann": int}], ret_ann=b), name="prod0", output_name="val")
+                    Graph([pick, p0, p, c], strict_types=True)
+                elif nested:
                     inner = Graph([p], name="inner_t", strict_types=True)
                     Graph([inner.as_node(), c], strict_types=True)
                 else:
@@ -389,7 +435,7 @@ def check_strict_graphs(ctx, U):
                 continue
             ctx.obs["strict_graphs_checked"] += 1
             if got != exp:
-                ctx.violation("C19:strict-graph:" + ("accepted" if got else "rejected"), f"strict_types graph (nested={nested}) with producer type {a!r} and consumer type {b!r} was {'accepted' if got else 'rejected'}; the documented relation says {'compatible' if exp else 'incompatible'}", {"incoming": repr(a), "required": repr(b), "nested": nested})
+                ctx.violation("C19:strict-graph:" + ("accepted" if got else "rejected") + (":" + nested if isinstance(nested, str) else ""), f"strict_types graph (nested={nested}) with producer type {a!r} and consumer type {b!r} was {'accepted' if got else 'rejected'}; the documented relation says {'compatible' if exp else 'incompatible'}", {"incoming": repr(a), "required": repr(b), "nested": nested})
     # missing annotations
     for missing in ("producer", "consumer"):
         rt.reset_program()
